@@ -9,7 +9,7 @@ JOIN = ["G", 200, "scaffold"]
 class C07(PipelineProp):
     pid = "C07"
     design_ref = "6/C07"
-    required_theorems = ['C07_fuse_is_join', 'C07_fusion_boundary_has_gap', 'C07_no_terminal_gap', 'C07_results_have_no_terminal_gap', 'C07_leftovers_have_no_terminal_gap', 'C07_adjacent_only_within_piece', 'C07_leftover_adjacency_is_input_adjacency', 'C07_legacy_refuted', 'C07_gap_provenance', 'C07_results_hold_input_gaps', 'C07_output_scaffolds_well_formed', 'C07_neighbour_gaps', 'C07_two_case_statement_refuted', 'C07_neighbour_gaps_uniform', 'C07_pretextview_gaps']
+    required_theorems = ['C07_fuse_is_join', 'C07_fusion_boundary_has_gap', 'C07_no_terminal_gap', 'C07_results_have_no_terminal_gap', 'C07_leftovers_have_no_terminal_gap', 'C07_adjacent_only_within_piece', 'C07_leftover_adjacency_is_input_adjacency', 'C07_legacy_refuted', 'C07_gap_provenance', 'C07_results_hold_input_gaps', 'C07_output_scaffolds_well_formed', 'C07_neighbour_gaps', 'C07_two_case_statement_refuted', 'C07_neighbour_gaps_uniform', 'C07_pretextview_gaps', 'C07_pretextview_gaps_any_tags']
 
     def rule(self):
         return (
